@@ -27,8 +27,6 @@ type c24MergeCase struct {
 	RightTags   []string
 }
 
-
-
 func genC24MergeCase(c *rig.Ctx, i int) *c24MergeCase {
 	r := c.SubRand("c24merge", i)
 	mc := &c24MergeCase{DB: fmt.Sprintf("c24m_%d", i)}
